@@ -196,7 +196,17 @@ class RaiseOracle:
                     return True
             if isinstance(n, ast.Compare):
                 if any(not isinstance(o, (ast.Is, ast.IsNot)) for o in n.ops):
-                    return True
+                    # `name == <constant>` / `name != <constant>`: compared through the
+                    # constant's builtin type; treated as not raising (bool(x) of a plain
+                    # name is treated the same way)
+                    simple = (
+                        len(n.ops) == 1
+                        and isinstance(n.ops[0], (ast.Eq, ast.NotEq))
+                        and isinstance(n.left, (ast.Name, ast.Constant))
+                        and isinstance(n.comparators[0], (ast.Constant,))
+                    )
+                    if not simple:
+                        return True
         return False
 
     def _walk(self, e):
